@@ -46,6 +46,7 @@ type leaf struct {
 	path string
 	get  func() interface{}
 	mut  func() // changes only this leaf; nil when no probe exists
+	inv  bool   // mut is an involution on a field of the object itself (applying it twice restores the leaf)
 }
 
 type walker struct {
@@ -62,7 +63,7 @@ func (w *walker) add(path, o string, get func() interface{}, mut func()) {
 		}
 		return x
 	}
-	w.leaves = append(w.leaves, leaf{path, g, mut})
+	w.leaves = append(w.leaves, leaf{path: path, get: g, mut: mut})
 }
 
 // expose makes an unexported (but addressable) field readable and settable.
@@ -165,6 +166,7 @@ func (w *walker) walk(path string, v reflect.Value, owner, fname string) {
 	switch {
 	case isScalarKind(t.Kind()):
 		w.add(path, o, func() interface{} { return scalarLeaf(v) }, func() { mutScalar(v) })
+		w.leaves[len(w.leaves)-1].inv = t.Kind() != reflect.String // xor 1 / not / mantissa bit; a text grows
 		return
 	case t.Kind() == reflect.Slice && t.Elem().Kind() == reflect.Uint8:
 		w.add(path, o, func() interface{} { return obj{"k": "y", "v": core.Cp(v.Bytes()), "z": v.IsNil()} },
